@@ -120,6 +120,7 @@ type CliWorld struct {
 	phase        int
 	peerGone     bool
 	stallC2S     bool
+	tblWatch     tableWatch
 	closeOffered bool
 	closed       bool
 
@@ -156,6 +157,7 @@ func NewCliWorld(sim *Sim, plan *CliPlan) *CliWorld {
 	w.s2c = NewDir("s2c", plan.Srv.LinkCap)
 	w.conn = &Conn{Name: "cli", R: w.s2c, W: w.c2s}
 	w.dec = hpack.NewDecoder(4096, func(f hpack.HeaderField) { w.decOut = append(w.decOut, f) })
+	w.tblWatch = newTableWatch()
 	w.allowedTable = 4096
 	w.connGranted = 65535 + int64(plan.Srv.ConnWindowBoost)
 	for i := range plan.Lanes {
@@ -427,6 +429,15 @@ func (w *CliWorld) onSrvFrame(f *Frame) {
 				if v.hasStreams {
 					w.ackedStreams = v.streams
 				}
+				if v.hasTable {
+					m := v.table
+					for _, u := range w.setVals[w.acked+1:] {
+						if u.hasTable && u.table > m {
+							m = u.table
+						}
+					}
+					w.tblWatch.acked(m)
+				}
 				if v.hasTable && v.table < w.allowedTable {
 					m := v.table
 					for _, u := range w.setVals[w.acked+1:] {
@@ -492,12 +503,17 @@ func (w *CliWorld) onSrvFrame(f *Frame) {
 		ss.blockBuf = append(ss.blockBuf, f.Block...)
 		if f.EndHeaders {
 			w.decOut = w.decOut[:0]
+			if l, ok := w.tblWatch.beforeBlock(); ok {
+				w.dec.SetMaxDynamicTableSize(uint32(l))
+			}
 			_, err := w.dec.Write(ss.blockBuf)
 			if err == nil {
 				err = w.dec.Close()
 			}
 			if err != nil {
 				ss.DecodeErr = err.Error()
+			} else {
+				w.tblWatch.block(ss.blockBuf)
 			}
 			ss.HdrBlocks++
 			ss.HeadersAt = w.sim.Steps
